@@ -928,3 +928,32 @@ fn C20_ring_sessions_equal_the_reference_vectors() {
     }
     assert_eq!(bad, 0);
 }
+
+// ---- C16: stateless transport shared between threads (compiles only if StatelessTransportState is Sync; results are those of the
+// single-threaded run)
+#[test]
+fn C16_stateless_shared_between_threads() {
+    let mut bad = 0;
+    for name in ["Noise_NN_25519_ChaChaPoly_SHA256", "Noise_XX_25519_AESGCM_SHA512"] {
+        let (i, r) = finished_pair(name);
+        let (si, sr) = (i.into_stateless_transport_mode().unwrap(), r.into_stateless_transport_mode().unwrap());
+        let expect: Vec<Vec<u8>> = (0..32u64).map(|n| { let mut b = vec![0u8; 100]; let l = si.write_message(n, &[n as u8; 9], &mut b).unwrap(); b.truncate(l); b }).collect();
+        let failures = std::sync::atomic::AtomicUsize::new(0);
+        std::thread::scope(|sc| {
+            for t in 0..4u64 {
+                let (si, sr, expect, failures) = (&si, &sr, &expect, &failures);
+                sc.spawn(move || {
+                    for round in 0..8 { for k in 0..32u64 { let n = (k * 7 + t * 5 + round) % 32;
+                        let mut b = vec![0u8; 100]; let mut p = vec![0u8; 100];
+                        let l = si.write_message(n, &[n as u8; 9], &mut b).unwrap();
+                        if b[..l] != expect[n as usize][..] { failures.fetch_add(1, std::sync::atomic::Ordering::Relaxed); }
+                        match sr.read_message(n, &b[..l], &mut p) { Ok(9) if p[..9] == [n as u8; 9] => {}, _ => { failures.fetch_add(1, std::sync::atomic::Ordering::Relaxed); } }
+                    } }
+                });
+            }
+        });
+        let f = failures.load(std::sync::atomic::Ordering::Relaxed);
+        if f > 0 { finding("C16", format!("{}: {} stateless operations gave a different result when the session was shared between 4 threads", name, f)); bad += 1; }
+    }
+    assert_eq!(bad, 0);
+}
